@@ -6,6 +6,8 @@ import NflowsModel.Lemmas.AutoregInverse
 import NflowsModel.Lemmas.Householder
 import NflowsModel.Lemmas.Multiscale
 import NflowsModel.Lemmas.Quad
+import NflowsModel.Lemmas.SqueezeIndex
+import NflowsModel.Lemmas.SqueezeLayout
 /-!
 # C02 — inverse undoes forward (both orders) and returns the negated log-abs-det
 
@@ -119,6 +121,27 @@ theorem composite_good {α C : Type} (ts : List (Coupling.Wrappers.Tr α C)) (h 
 theorem householder_seq_inverse {n : Type} [Fintype n] [DecidableEq n] (vs : List (n → ℝ)) (hv : ∀ v ∈ vs, v ⬝ᵥ v ≠ 0)
     (x : n → ℝ) : Householder.hhSeq vs.reverse (Householder.hhSeq vs x) = x :=
   Householder.hhSeq_inverse vs hv x
+
+/-- **Squeeze, every factor**: the coordinate maps the executable `squeezeFwd` / `squeezeInv` use are mutually inverse
+    for EVERY factor `f ≥ 1`, every channel and pixel (the pinned code hard-coded `c % 4`, i.e. `f = 2`, in the inverse's
+    validation; repaired) -/
+theorem squeeze_coords_inverse (f : Nat) (hf : 0 < f) :
+    (∀ c h w, (let s := sqCoord f c h w; unsqCoord f s.1 s.2.1 s.2.2) = (c, h, w)) ∧
+    (∀ oc i j, (let u := unsqCoord f oc i j; sqCoord f u.1 u.2.1 u.2.2) = (oc, i, j)) :=
+  ⟨fun c h w => unsq_sq f c h w hf, fun oc i j => sq_unsq f oc i j hf⟩
+
+/-- the coordinate map IS what the code's `view(b,c,h/f,f,w/f,f).permute(0,1,3,5,2,4)` reads (strided views, all sizes
+    symbolic): entry `[b, c, fi, fj, i, j]` of the permuted view is input pixel `(i·f + fi, j·f + fj)` of channel `c` -/
+theorem squeeze_forward_layout {α : Type} [Inhabited α] (X : Array α) (B C Ho Wo f b c fi fj i j : Nat) :
+    (((View.ofArray X [B, C, Ho * f, Wo * f]).reshape [B, C, Ho, f, Wo, f]).permute [0, 1, 3, 5, 2, 4]).get [b, c, fi, fj, i, j]
+      = (View.ofArray X [B, C, Ho * f, Wo * f]).get [b, c, i * f + fi, j * f + fj] :=
+  View.squeeze_forward_layout X B C Ho Wo f b c fi fj i j
+
+/-- and the inverse's `view(b,c,f,f,h,w).permute(0,1,4,2,5,3)` reads squeezed channel `(c·f + fi)·f + fj` -/
+theorem squeeze_inverse_layout {α : Type} [Inhabited α] (Y : Array α) (B C Ho Wo f b c fi fj i j : Nat) :
+    (((View.ofArray Y [B, C * f * f, Ho, Wo]).reshape [B, C, f, f, Ho, Wo]).permute [0, 1, 4, 2, 5, 3]).get [b, c, i, fi, j, fj]
+      = (View.ofArray Y [B, C * f * f, Ho, Wo]).get [b, (c * f + fi) * f + fj, i, j] :=
+  View.squeeze_inverse_layout Y B C Ho Wo f b c fi fj i j
 
 /-! non-vacuity -/
 example : ((-1:ℝ) ≤ 0) ∧ ((0:ℝ) ≤ 1 + 1 + -1) ∧ ((-1:ℝ) = 0 → (0:ℝ) < 1) := by norm_num
